@@ -56,10 +56,20 @@ func (a *auditor) audit() []rhplab.Event {
 	var commits []rhplab.Event
 	// balances the Contractor reported to the handler, per stream (replenish)
 	balances := map[uint64][]types.Currency{}
+	// the revision each handler was shown when it took the contract lock
+	type lockKey struct {
+		stream uint64
+		id     types.FileContractID
+	}
+	locked := map[lockKey]types.V2FileContract{}
 	for i := range evs {
 		ev := &evs[i]
 		a.seq = ev.Seq
 		switch ev.Kind {
+		case rhplab.EvLock:
+			if ev.Err == "" {
+				locked[lockKey{ev.Stream, ev.ContractID}] = ev.Revision
+			}
 		case rhplab.EvAccountBalances, rhplab.EvPoolBalances:
 			if ev.Err == "" {
 				balances[ev.Stream] = ev.Balances
@@ -77,6 +87,22 @@ func (a *auditor) audit() []rhplab.Event {
 		if x == nil || x.Request() == nil {
 			a.report("uncorrelated-commit", "a persisting Contractor call could not be tied to a complete tapped request", ev, nil)
 			continue
+		}
+		// whatever is committed must build on the revision the handler saw under
+		// its lock, and that must still be the latest committed one
+		if ev.Kind != rhplab.EvAddContract {
+			id := ev.ContractID
+			if ev.Kind == rhplab.EvRenewContract {
+				id = ev.ParentID
+			}
+			seen, ok := locked[lockKey{ev.Stream, id}]
+			if tr := a.tracks[id]; !ok {
+				a.count("commits_without_lock_event", 1)
+			} else if tr != nil && seen != tr.rev {
+				a.report("commit-on-stale-lock", "a handler committed although the revision it was shown under the contract lock is no longer the latest committed one (another RPC committed while it held the lock)", ev, map[string]any{"seen_revision_number": seen.RevisionNumber, "latest_revision_number": tr.rev.RevisionNumber})
+			} else {
+				a.count("commits_on_fresh_lock", 1)
+			}
 		}
 		switch ev.Kind {
 		case rhplab.EvAddContract:
